@@ -175,6 +175,12 @@ func (f *Frame) enterLoop(li *loopInfo, cur *State, r string) (*State, string) {
 			c.assume(rh, c.frameFormula(k, c.heapTerm(f.entry, k), nh, c.nextRef(f.entry), f.fnObjs[k]))
 		}
 	}
+	// ghost variables that a call in the loop body may change (through a contract's modifies / defines) are havocked too
+	for _, gname := range f.loopGhosts(li) {
+		gv := c.eng.cs.Ghosts[gname]
+		s, _ := c.eng.resolveType(gv.Pkg, gv.Type)
+		st.ghosts[gname] = c.fresh("lg."+gname, s)
+	}
 	// typing of havocked cells
 	for _, a := range cells {
 		if v, ok := st.cells[a]; ok && v.T != "" {
@@ -399,4 +405,129 @@ func (f *Frame) loopDecr(li *loopInfo) *Clause {
 		return nil
 	}
 	return f.fc.LoopDecr
+}
+
+// loopGhosts: ghost variables a call inside the loop may change. Conservative: every declared ghost that some contract
+// reachable from a call in the loop names in a modifies or defines clause; a call through a function value or to a
+// function without contract that is not inlined counts for all ghosts.
+func (f *Frame) loopGhosts(li *loopInfo) []string {
+	c := f.c
+	if len(c.eng.cs.Ghosts) == 0 {
+		return nil
+	}
+	set := map[string]bool{}
+	all := func() {
+		for g := range c.eng.cs.Ghosts {
+			set[g] = true
+		}
+	}
+	seen := map[*ssa.Function]bool{}
+	var walk func(g *ssa.Function, blocks []*ssa.BasicBlock)
+	addContract := func(fc *FuncContract) {
+		for _, cl := range fc.Modifies {
+			for _, e := range cl.Exprs {
+				if e.Op == "ident" {
+					if _, ok := c.eng.cs.Ghosts[e.Name]; ok {
+						set[e.Name] = true
+					}
+				}
+			}
+		}
+		for _, df := range fc.GhostDefs {
+			if df.Expr != nil && df.Expr.Op == "binary" && df.Expr.Args[0].Op == "ident" {
+				set[df.Expr.Args[0].Name] = true
+			}
+		}
+	}
+	walk = func(g *ssa.Function, blocks []*ssa.BasicBlock) {
+		for _, b := range blocks {
+			for _, ins := range b.Instrs {
+				ci, ok := ins.(ssa.CallInstruction)
+				if !ok {
+					continue
+				}
+				com := ci.Common()
+				if _, isB := com.Value.(*ssa.Builtin); isB {
+					continue
+				}
+				sc := com.StaticCallee()
+				if sc == nil {
+					// a call through a function-valued parameter is governed by that parameter's contract
+					handled := false
+					if pname := paramNameOf(com.Value); pname != "" {
+						if fc := c.eng.cs.Funcs[c.eng.keyOf[g]]; fc != nil {
+							if tk, ok := fc.FnParams[pname]; ok {
+								if t := c.eng.cs.Funcs[tk]; t != nil {
+									addContract(t)
+									for _, inc := range t.Includes {
+										if t2 := c.eng.cs.Funcs[inc]; t2 != nil {
+											addContract(t2)
+										}
+									}
+									handled = true
+								}
+							}
+						}
+					}
+					if !handled && com.IsInvoke() {
+						// interface method: the union of the contracts of that name (interface contract and implementations)
+						suffix := "." + com.Method.Name()
+						for k, fc := range c.eng.cs.Funcs {
+							if strings.HasSuffix(k, suffix) {
+								addContract(fc)
+								handled = true
+							}
+						}
+					}
+					if !handled {
+						all()
+					}
+					continue
+				}
+				if k, ok := c.eng.keyOf[sc]; ok && c.eng.cs.Funcs[k] != nil {
+					fc := c.eng.cs.Funcs[k]
+					addContract(fc)
+					for _, inc := range fc.Includes {
+						if t := c.eng.cs.Funcs[inc]; t != nil {
+							addContract(t)
+						}
+					}
+					continue
+				}
+				if sc.Blocks != nil && sc.Pkg != nil && corePkgs[sc.Pkg.Pkg.Name()] && !seen[sc] {
+					seen[sc] = true
+					walk(sc, sc.Blocks)
+				}
+			}
+		}
+	}
+	var blocks []*ssa.BasicBlock
+	for b := range li.blocks {
+		blocks = append(blocks, b)
+	}
+	walk(f.fn, blocks)
+	var out []string
+	for g := range set {
+		out = append(out, g)
+	}
+	sort.Strings(out)
+	return out
+}
+
+// paramNameOf: the name of the function parameter a called value comes from (directly, or loaded from the cell the
+// naive SSA form spills it to); "" otherwise.
+func paramNameOf(v ssa.Value) string {
+	switch x := v.(type) {
+	case *ssa.Parameter:
+		return x.Name()
+	case *ssa.UnOp:
+		if a, ok := x.X.(*ssa.Alloc); ok && x.Op.String() == "*" {
+			for _, prm := range a.Parent().Params {
+				if prm.Name() == a.Comment {
+					return a.Comment
+				}
+			}
+		}
+	}
+	return ""
 }
